@@ -124,7 +124,12 @@ DscTexts == {
   <<40,120,10,41,37,37,84,58,32,97,10>>,                          \* after a string that contains a line end: column is not 0
   <<32,37,37,84,58,32,97,10>>,                                    \* preceded by a blank
   <<37,37,84,58,32,40,97,41,32,123,10,49>>,                       \* delimiters inside the value
-  <<37,37,84,58,32,97,10,37,37,85,58,32,98,10>>                   \* two comments in order
+  <<37,37,84,58,32,97,10,37,37,85,58,32,98,10>>,                  \* two comments in order
+  <<37,37,84,13,49,32,50,13>>,                                    \* no value, bare CR, then code on the next line
+  <<37,37,84,58,13,13,49,32,50,13>>,                              \* empty value, CR, blank line, code
+  <<37,37,84,58,32,13,49,10>>,                                    \* blank value, CR, code
+  <<37,37,84,13,10,49,32,50,13,10>>,                              \* no value, CR LF, code
+  <<37,37,84,58,9,97,13,37,37,85,13,51,13>>                       \* tab before the value; second comment without value
 }
 
 VARIABLES str,     \* family bytes: the string; other families: the joined text
